@@ -124,6 +124,8 @@ pub const V14_RECT_AS_PATH: u32 = 1;
 pub const V14_COVERING_CLIP: u32 = 2;
 pub const V14_IMAGE_AS_FILL: u32 = 4;
 pub const V14_BUGGIFY: u32 = 8;
+/// the twin brackets every eligible call with its own push / pop of a surface-covering clip
+pub const V14_COVER_EACH: u32 = 16;
 
 pub fn gen_c14(rng: &mut Rng, thorough: bool) -> History {
     let surf = if thorough && rng.chance(1, 12) { gen_surface_big(rng, false) } else { gen_surface(rng, if thorough { 64 } else { 33 }, false, false) };
@@ -138,11 +140,12 @@ pub fn gen_c14(rng: &mut Rng, thorough: bool) -> History {
         None => vec![surf],
     });
     let mut last_clear: Option<[u8; 4]> = None;
-    let variant = match rng.below(6) {
+    let variant = match rng.below(7) {
         0 => V14_RECT_AS_PATH,
         1 => V14_COVERING_CLIP,
         2 => V14_IMAGE_AS_FILL,
         3 => V14_BUGGIFY,
+        4 => V14_COVER_EACH | (rng.below(2) as u32 * V14_RECT_AS_PATH),
         _ => 1 + rng.below(15) as u32,
     };
     // the covering clip may be the surface rect exactly or reach beyond it by up to 6 px
@@ -183,7 +186,28 @@ pub fn gen_c14(rng: &mut Rng, thorough: bool) -> History {
             }
         }
     }
+    // A surface-covering clip is neutral whatever else is on the clip stack: now and then a clip of
+    // the history's own (rectangle or path) is in force for a stretch of the calls (the eligible
+    // calls then take the general route in both executions, and the twin's brackets sit on top)
+    let mut outer_clip = false;
+    let want_outer = rng.chance(1, 5);
     for _ in 0..n {
+        if want_outer && !outer_clip && rng.chance(1, 3) {
+            if rng.chance(2, 3) {
+                let x1 = rng.range(-2, w);
+                let y1 = rng.range(-2, h);
+                em.push(0, Op::PushClipRect([x1, y1, rng.range(x1, w + 3), rng.range(y1, h + 3)]));
+            } else {
+                em.push(0, Op::PushClip(gen_path(rng, w, h, PATH_ANY)));
+            }
+            outer_clip = true;
+            continue;
+        }
+        if outer_clip && rng.chance(1, 6) {
+            em.push(0, Op::PopClip);
+            outer_clip = false;
+            continue;
+        }
         // the very same call again, or the same colour as the surface was just cleared to: the
         // shaded source pixel then equals the destination pixel bit for bit
         if rng.chance(1, 8) {
@@ -270,6 +294,9 @@ pub fn gen_c14(rng: &mut Rng, thorough: bool) -> History {
         };
         em.push(0, op);
     }
+    if outer_clip {
+        em.push(0, Op::PopClip);
+    }
     for _ in 0..layers {
         em.push(0, Op::PopLayer);
     }
@@ -337,9 +364,25 @@ pub fn run_c14(h: &History, st: &mut Stats) -> Outcome {
             eligible += 1;
         }
         let tstep = Step { surf: 0, op: top, nop: 0 };
-        if let Err(pi) = exec(&mut t, &tstep, budget, st) {
-            st.abort(&panic_class(&pi));
-            return Outcome::Aborted(format!("twin: {}", panic_desc(&pi)));
+        let bracket = h.variant & V14_COVER_EACH != 0 && matches!(step.op, Op::FillRect { .. } | Op::Clear { .. } | Op::DrawImageAt { .. });
+        let pad = (h.variant >> 8) as i32 % 7;
+        let mut seq: Vec<Step> = Vec::new();
+        if bracket {
+            seq.push(Step { surf: 0, op: Op::PushClipRect([-pad, -pad, w + pad, hh + pad]), nop: 0 });
+            st.count("perturbation.neutral_bracket");
+        }
+        seq.push(tstep.clone());
+        if bracket {
+            seq.push(Step { surf: 0, op: Op::PopClip, nop: 0 });
+        }
+        for s in &seq {
+            if let Err(pi) = exec(&mut t, s, budget, st) {
+                st.abort(&panic_class(&pi));
+                return Outcome::Aborted(format!("twin: {}", panic_desc(&pi)));
+            }
+        }
+        if bracket && (t.surfs[0].clip_depth() != p.surfs[0].clip_depth()) {
+            return viol("c14.covering-clip-bracket-changed-the-clip-stack", i, format!("clip depth {} after push/pop of a covering clip around {}, {} without", t.surfs[0].clip_depth(), step.op.name(), p.surfs[0].clip_depth()));
         }
         if let Some(d) = first_diff(p.surfs[0].pixels(), t.surfs[0].pixels(), w) {
             return viol(
